@@ -16,16 +16,24 @@ from ebpfcat.ethercat import EtherCat, Terminal
 PROP = "C20"
 LEVEL = "model_checking"
 RULE = ("all sequences of map(read) / map(write) / unmap(i-th live mapping) "
-        "up to the length bound on terminals with 1..4 FMMUs, at most one "
-        "operation per sequence with an injected bus fault (its first FMMU "
-        "register write is not processed); non-trivial = "
+        "up to the length bound on terminals with 1..4 FMMUs, logical "
+        "addresses starting at 0 or 0x100, at most one (thorough: two) "
+        "operations per sequence with an injected bus fault (its first FMMU "
+        "register write is not processed) and at most one (two) steps in "
+        "which two operations are in flight at once, in both start orders; "
+        "non-trivial = "
         "at least two mappings were live at some point; distinct = distinct "
         "canonical state (FMMU registers, live set)")
 KF = "C20-write-slot-formula"
 
 
+def is_faulted(op):
+    return op[0] != "par" and len(op) > 2 and bool(op[2])
+
+
 class World:
-    def __init__(self, n_fmmu):
+    def __init__(self, n_fmmu, base=0x100):
+        self.base = base
         self.loop = vloop.VLoop()
         self.loop.__enter__()
         self.t = bussim.Terminal("t", station=77, n_fmmu=n_fmmu)
@@ -58,7 +66,7 @@ class World:
 
     def do(self, op):
         """-> (kind, detail)"""
-        if len(op) > 2 and op[2]:
+        if is_faulted(op):
             self.fail_next = True
             self.faults += 1
         try:
@@ -66,27 +74,52 @@ class World:
         finally:
             self.fail_next = False
 
-    def _do(self, op):
+    def _start(self, op):
+        """start one operation -> (future, completion function)"""
         if op[0] == "map":
             self.counter += 1
-            logical = 0x10000 * self.counter + 0x100
+            logical = self.base + 0x10000 * (self.counter - 1)
             cm = self.term.map_fmmu(logical, op[1])
             fut = asyncio.ensure_future(cm.__aenter__())
-            if not self.m.run(fut, max_frames=50):
-                return ("hang", None)
-            if fut.exception() is not None:
-                return ("failed", type(fut.exception()).__name__)
-            slot = fut.result()
-            self.live.append((logical, op[1], cm, slot))
-            self.everlive = max(self.everlive, len(self.live))
-            return ("mapped", slot)
-        logical, write, cm, slot = self.live.pop(op[1])
+
+            def done():
+                if fut.exception() is not None:
+                    return ("failed", type(fut.exception()).__name__)
+                slot = fut.result()
+                self.live.append((logical, op[1], cm, slot))
+                self.everlive = max(self.everlive, len(self.live))
+                return ("mapped", slot)
+            return fut, done
+        logical, write, cm, slot = self.live[op[1]]
+        self.leaving.append(self.live[op[1]])
         fut = asyncio.ensure_future(cm.__aexit__(None, None, None))
-        if not self.m.run(fut, max_frames=50):
+
+        def done():
+            if fut.exception() is not None:
+                return ("unmap raised", type(fut.exception()).__name__)
+            return ("unmapped", slot)
+        return fut, done
+
+    def _do(self, op):
+        self.leaving = []
+        if op[0] == "par":
+            # two operations in flight at once: both are started before
+            # the first frame is delivered (their datagrams share a frame)
+            started = [self._start(o) for o in op[1:3]]
+        else:
+            started = [self._start(op)]
+        both = asyncio.gather(*[f for f, _ in started],
+                              return_exceptions=True)
+        hang = not self.m.run(both, max_frames=50)
+        for entry in self.leaving:
+            self.live.remove(entry)
+        if hang:
             return ("hang", None)
-        if fut.exception() is not None:
-            return ("unmap raised", type(fut.exception()).__name__)
-        return ("unmapped", slot)
+        results = [done() for _, done in started]
+        if len(results) == 1:
+            return results[0]
+        bad = [r for r in results if r[0] == "unmap raised"]
+        return bad[0] if bad else ("par", tuple(results))
 
     def fmmu_regs(self):
         out = []
@@ -141,15 +174,16 @@ class World:
                 tuple(self.term.fmmu_used), self.faults)
 
 
-def build(n_fmmu, hist):
-    w = World(n_fmmu)
+def build(conf, hist):
+    w = World(*conf)
     results = []
     for op in hist:
         results.append(w.do(op))
     return w, results
 
 
-def work(n_fmmu, res):
+def work(conf, res):
+    n_fmmu = conf
     depth = work.depth
     seen = set()
     frontier = [()]
@@ -162,11 +196,15 @@ def work(n_fmmu, res):
             w, _ = build(n_fmmu, hist)
             nlive = len(w.live)
             w.close()
-            ops = [("map", False), ("map", True)] + \
+            basic = [("map", False), ("map", True)] + \
                 [("unmap", j) for j in range(nlive)]
-            if sum(1 for o in hist if len(o) > 2) < work.faults:
+            ops = list(basic)
+            if sum(1 for o in hist if is_faulted(o)) < work.faults:
                 ops += [("map", False, True), ("map", True, True)] + \
                     [("unmap", j, True) for j in range(nlive)]
+            if sum(1 for o in hist if o[0] == "par") < work.pars:
+                ops += [("par", a, b) for a in basic for b in basic
+                        if not (a[0] == b[0] == "unmap" and a[1] == b[1])]
             for op in ops:
                 h2 = hist + (op,)
                 w, results = build(n_fmmu, h2)
@@ -174,9 +212,9 @@ def work(n_fmmu, res):
                 res.count("transitions")
                 kind, detail = results[-1]
                 res.outcomes.add((kind, len(w.live)))
-                case = dict(n_fmmu=n_fmmu, hist=h2)
+                case = dict(n_fmmu=n_fmmu[0], base=n_fmmu[1], hist=h2)
                 bad = None
-                faulted = len(op) > 2
+                faulted = is_faulted(op)
                 if kind == "hang" or (kind == "unmap raised"
                                       and not faulted):
                     bad = ("operation completes", (kind, detail),
@@ -207,7 +245,7 @@ def work(n_fmmu, res):
                     continue
                 seen.add(k)
                 if ever >= 2:
-                    res.nontrivial.add(core.digest([n_fmmu, k]))
+                    res.nontrivial.add(core.digest([list(n_fmmu), k]))
                 if len(h2) < depth:
                     nxt.append(h2)
         frontier = nxt
@@ -217,7 +255,10 @@ def work(n_fmmu, res):
 def run(ctx):
     work.depth = 5 if ctx.quick else 7
     work.faults = 1 if ctx.quick else 2
-    res = core.pmap(ctx, work, [1, 2, 3, 4], chunk=1)
+    work.pars = 1 if ctx.quick else 2
+    # base: logical address of the first mapping (0 is a legal one)
+    res = core.pmap(ctx, work, [(n, base) for n in (1, 2, 3, 4)
+                                for base in (0, 0x100)], chunk=1)
     res.cov["traces_validated_against_impl"] = res.cov.get("evaluations", 0)
     res.cov["depth"] = work.depth
     res.sample(dict(n_fmmu=3, hist=[["map", True], ["map", True],
@@ -236,8 +277,10 @@ def run(ctx):
 def replay(ctx, rep):
     res = core.Result()
     c = rep["case"]
-    hist = tuple(tuple(op) for op in c["hist"])
-    w, results = build(c["n_fmmu"], hist)
+    def tup(op):
+        return tuple(tup(x) if isinstance(x, list) else x for x in op)
+    hist = tuple(tup(op) for op in c["hist"])
+    w, results = build((c["n_fmmu"], c.get("base", 0x100)), hist)
     for op, r in zip(hist, results):
         print("  ", op, "->", r)
     print("regs", w.fmmu_regs(), "table", w.term.fmmu_used)
